@@ -242,7 +242,8 @@ def main(argv=None):
     # ---- regression corpus (witnesses of fixed findings and earlier catches)
     reg_n = 0
     open_witnesses = {f['witness'] for f in avoid.parse_known_findings() if f['status'] == 'open'}
-    for path in ([] if args.no_corpus else sorted(glob.glob(os.path.join(ROOT, 'regressions', '*.json')))):
+    for path in ([] if args.no_corpus else sorted(glob.glob(os.path.join(ROOT, 'regressions', '*.json')) +
+                                                  glob.glob(os.path.join(ROOT, 'regressions', 'corpus', '*.json')))):
         rel = os.path.relpath(path, ROOT)
         if rel in open_witnesses:
             continue
